@@ -29,7 +29,8 @@ def patch_case(rng, big=False):
     blocks = []
     for _ in range(nb):
         r = rng.random()
-        if big and r < 0.6: blocks.append(patch_sizes_at_boundary(rng))
+        if big and r < 0.25: blocks.append((1 << rng.choice([17, 17, 18]), 0))      # a block that only drops base data: the reference data fills the window exactly
+        elif big and r < 0.7: blocks.append(patch_sizes_at_boundary(rng))
         else: blocks.append((rng.choice([0, 10, 5000, 32768, 32769, 40000]), rng.choice([1, 100, 5000, 40000, 70000])))
     pt, base, plain = oabfmt.build_patch(rng, blocks)
     return pt, base, plain, "patch blocks=%s" % blocks
